@@ -19,7 +19,6 @@ def run(ctx):
                       "self.readonly holds, nor where the parameter is constant and the instance is initialized; on that arm the only "
                       "non-raising continuation is the identity case", floor=5)
     ctx.rule("R14.b", "edit_constant: every constant flag cleared before the yield is set again in the finally, on the class Parameter and on the instance Parameter", floor=2)
-    ctx.rule("R14.d", "at construction every constant parameter (other than name) is referenced on the instance, so that a later class-level set cannot rebind what an existing instance holds", floor=1)
     ctx.rule("R14.e", "inside param only the two sanctioned routes (_sync_refs, Time.__call__) unlock constants with edit_constant; no other internal route lifts the guard", floor=1)
     ctx.rule("R14.f", "no assignment route through Parameter.__set__ returns normally without having passed the constant/readonly test (incl. the early return for asynchronous references)", floor=1)
     ctx.rule("R14.g", "the class-level parameter mapping that edit_constant holds across its body is never mutated in place by cache invalidation", floor=1)
@@ -27,6 +26,7 @@ def run(ctx):
     ctx.rule("R14.i", "edit_constant restores the very Parameter objects it unlocked (by identity), not only whatever a by-name lookup finds on exit", floor=1)
     ctx.rule("R14.c", "Parameterized.name is declared constant; Parameter.__init__ sets constant whenever readonly is true", floor=2)
     ctx.rule("R14.m", "setter model: Parameter.__set__ interpreted abstractly on every combination (576) of route x constant/readonly x validation outcome x identity x reference mode x watchers x batching agrees with the specification of this property (see checks/setter_model.py)", floor=1)
+    ctx.rule("R14.k", "constructor model: Parameters._setup_params (with _instantiate_param) interpreted abstractly on 288 combinations of keywords x reference modes (plain value / reference with a value / reference without a value yet / asynchronous reference) x an unknown keyword: own copy of every instantiate=True default and pinned constants before any keyword is applied (and still there when a keyword assigns nothing), exactly the specified assignments, every reference and only references recorded", floor=1)
     ctx.not_decided += ["histories involving per-instance Parameter copies created earlier", "as_uninitialized (deliberately not armed, see C05 exclusions)"]
 
     f = ctx.repo.method(PARAMETER, "__set__")
@@ -152,23 +152,8 @@ def run(ctx):
     if good:
         ctx.ok("R14.c", init, cstores[0], "constant is forced to True whenever readonly is True")
 
-    # ---------------------------------------------------------------- R14.d
-    sp = ctx.repo.func("param.parameterized.Parameters._setup_params")
-    spc = ctx.facts.cfg(sp)
-    fills = [n for n in spc.live_nodes() if n.kind == "stmt" and isinstance(n.ast, ast.Assign) and isinstance(n.ast.targets[0], ast.Subscript)
-             and isinstance(n.ast.targets[0].value, ast.Name) and has(spc.conditions(n), "p.constant", True)]
-    if not fills:
-        ctx.fail("R14.d", sp, sp.node, "_setup_params no longer collects the constant parameters to reference them on the new instance", key=sp.qualname + "::no-constant-refs")
-    for n in fills:
-        extra = [norm(e) for e, t in spc.conditions(n) if not isinstance(e, ast.BoolOp)
-                 and norm(e) not in ("p.instantiate", "p.constant", "pname != 'name'", "pname == 'name'")]
-        if extra:
-            ctx.fail("R14.d", sp, n, "constant parameters are referenced on the instance only when %s: the others read through to the class default, so `Cls.x = obj` "
-                                     "rebinds the value held by existing instances" % " and ".join(extra), key=sp.qualname + "::narrowed-constant-refs",
-                     input="constant=True, default=None; a = Cls(); Cls.x = obj -> a.x is obj")
-        else:
-            ctx.ok("R14.d", sp, n, "every constant parameter other than name is selected")
-
+    # R14.d (a whitelist of atoms allowed in the selection of constants to pin) was replaced by the constructor
+    # model R14.k, which interprets _setup_params incl. a constant whose default is None.
     # ---------------------------------------------------------------- R14.e
     # frozen who-may-unlock table, one reason each
     UNLOCKERS = {
@@ -253,3 +238,5 @@ def run(ctx):
     # model-level rule, run last (see DESIGN §10)
     from checks import setter_model
     setter_model.report(ctx, "C14", "R14.m")
+    from checks import ctor_model
+    ctor_model.report(ctx, "C14", "R14.k")
